@@ -1,6 +1,12 @@
 use std::collections::HashMap;
 use std::hash::BuildHasherDefault;
-use std::sync::{Arc, Mutex};
+use std::sync::Arc;
+#[cfg(not(rten_verif_loom))]
+use std::sync::Mutex;
+
+// Verification hook: model-check the plan cache lock with loom.
+#[cfg(rten_verif_loom)]
+use loom::sync::Mutex;
 use std::time::Duration;
 
 use rayon::prelude::*;
